@@ -59,7 +59,7 @@ func (cs *c06Case) UnmarshalJSON(b []byte) error {
 func init() {
 	engine.Register(&engine.Check{
 		ID: "C06", Level: "model_checking",
-		Rule:   "tree of ALL token sequences, complete to the stated depth in three tiers: (i) full alphabet (28 type keywords, EMPTY, '(' ')' ',', coordinate tokens of arity 1..5) to depth 9 (quick) / 10 (thorough); (ii) reduced alphabet {POINT,MULTIPOINT,MULTIPOLYGON,GEOMETRYCOLLECTION} x {base,Z,M,ZM} + EMPTY ( ) , + 8 coordinate tokens (two values per arity 2..4 so that unclosed rings and Z/M-only differences occur) to depth 11 / 13; (iii) tiny alphabet {GC, GC M, GC Z, POINT, POINT M, POINT Z, EMPTY ( ) , arity 2, 3} to depth 16 / 19; (iv) ring alphabet {POLYGON} x {base,Z,M,ZM} + EMPTY ( ) , + 11 coordinate tokens (arity 2..4, values differing in X/Y, in Z only, in M only, by one ulp in X and in Z) to depth 14 / 16 (rings of up to 5 / 6 positions in every layout). A prefix is extended unless the parse failed strictly before its last token (or at the last token and no continuation can re-lex it) - sound for an LALR(1) parser; every explored sequence is parsed by wkt.Unmarshal (no panic; error renders with a position inside the input; accepted => well-formed, one layout, lines >=2, rings closed >=4, re-encode round trip) and compared with the independent reference reader (accept/reject and geometry). Plus a numeric-literal lattice (3 signs x 17 mantissas x 16 exponent forms in three positions), every tier-(iii) sequence of <=5 (thorough 6) tokens re-rendered with four whitespace styles (verdict must not change; errors on later lines / far into a line must render), every single-token deletion/substitution/transposition of every valid corpus text, every byte string of length <=4 (quick) / <=5 (thorough) over a 20-byte alphabet, and ~150000 strings made of two runs (lengths 0..64 around the renderer's 30-column window) of blanks, letters, UTF-8 continuation bytes, bytes the lexer treats as blanks, and 2-, 3- and 4-byte characters, on a first or second line, before five tails. states = explored sequences (viable prefixes + leaves) Also: digit strings of 1..25 digits, the int64/uint64 limits and their neighbours as numeric literals.",
+		Rule:   "tree of ALL token sequences, complete to the stated depth in three tiers: (i) full alphabet (28 type keywords, EMPTY, '(' ')' ',', coordinate tokens of arity 1..5) to depth 9 (quick) / 10 (thorough); (ii) reduced alphabet {POINT,MULTIPOINT,MULTIPOLYGON,GEOMETRYCOLLECTION} x {base,Z,M,ZM} + EMPTY ( ) , + 8 coordinate tokens (two values per arity 2..4 so that unclosed rings and Z/M-only differences occur) to depth 11 / 13; (iii) tiny alphabet {GC, GC M, GC Z, POINT, POINT M, POINT Z, EMPTY ( ) , arity 2, 3} to depth 16 / 19; (iv) ring alphabet {POLYGON} x {base,Z,M,ZM} + EMPTY ( ) , + 11 coordinate tokens (arity 2..4, values differing in X/Y, in Z only, in M only, by one ulp in X and in Z) to depth 14 / 16 (rings of up to 5 / 6 positions in every layout). A prefix is extended unless the parse failed strictly before its last token (or at the last token and no continuation can re-lex it) - sound for an LALR(1) parser; every explored sequence is parsed by wkt.Unmarshal (no panic; error renders with a position inside the input; accepted => well-formed, one layout, lines >=2, rings closed >=4, re-encode round trip) and compared with the independent reference reader (same geometry when both accept; a text the reference accepts must be accepted; a text the reference rejects for a reason the property names - dimensionality, arity, line and ring rules - must be rejected). Plus a numeric-literal lattice (3 signs x 17 mantissas x 16 exponent forms in three positions), every tier-(iii) sequence of <=5 (thorough 6) tokens re-rendered with four whitespace styles (verdict must not change; errors on later lines / far into a line must render), every single-token deletion/substitution/transposition of every valid corpus text, every byte string of length <=4 (quick) / <=5 (thorough) over a 20-byte alphabet, and ~150000 strings made of two runs (lengths 0..64 around the renderer's 30-column window) of blanks, letters, UTF-8 continuation bytes, bytes the lexer treats as blanks, and 2-, 3- and 4-byte characters, on a first or second line, before five tails. states = explored sequences (viable prefixes + leaves) Also: digit strings of 1..25 digits, the int64/uint64 limits and their neighbours as numeric literals.",
 		Run:    c06Run,
 		Replay: func(c *engine.Ctx, kind string, raw json.RawMessage) { c06Exec(c, decodeCase[c06Case](raw)) },
 		Assumptions: []string{
@@ -164,12 +164,20 @@ func c06Exec(c *engine.Ctx, cs c06Case) c06Outcome {
 	if cs.Diff {
 		rg, rerr := ref.ParseWKT(text)
 		switch {
-		case (rerr == nil) != (err == nil):
-			what := "accepts-what-reference-rejects"
-			if err != nil {
-				what = "rejects-what-reference-accepts"
+		case rerr != nil && err == nil:
+			// The property names what must be REJECTED: inconsistent dimensionality, one-point lines,
+			// short or unclosed rings, points of a wrong arity. A text the reference turns down for
+			// one of those reasons and the library accepts is a violation. A text the reference
+			// turns down for its syntax alone (an extra token, a spelling outside the standard
+			// grammar) may be accepted by a more liberal parser: the property does not forbid that,
+			// and the accepted geometry has passed the consistency and re-encoding checks above.
+			if c06SemanticReason(rerr.Error()) {
+				fail("accepts-what-reference-rejects", fmt.Sprintf("library: accepted; reference: %v", rerr))
+			} else {
+				c.Count("accepted_beyond_reference_grammar", 1)
 			}
-			fail(what, fmt.Sprintf("library: %v; reference: %v", firstLine(err), rerr))
+		case rerr == nil && err != nil:
+			fail("rejects-what-reference-accepts", fmt.Sprintf("library: %v; reference: accepted", firstLine(err)))
 		case err == nil:
 			if d := observeEq(g, rg, ref.EqualOpt{}); d != "" {
 				fail("differs-from-reference", d)
@@ -177,6 +185,17 @@ func c06Exec(c *engine.Ctx, cs c06Case) c06Outcome {
 		}
 	}
 	return out
+}
+
+// c06SemanticReason: the reference reader's reasons that restate the property's rejection rules
+// (as opposed to plain syntax errors).
+func c06SemanticReason(msg string) bool {
+	for _, k := range []string{"point with", "mixed dimensionality", "linestring with one point", "ring with fewer", "ring not closed", "EMPTY is XY", "collection without a layout", "member layout differs", "M variant required", "base type in an M collection"} {
+		if strings.Contains(msg, k) {
+			return true
+		}
+	}
+	return false
 }
 
 func firstLine(err error) string {
